@@ -446,14 +446,18 @@ func (s *udpSrv) take() []udpPkt {
 	return p
 }
 
-func (s *udpSrv) lastIssued(src string) (uint64, bool) {
+// wasIssued reports whether the tracker handed this connection id to this client address (a retransmitted
+// connect request gets a second id; either is valid, as on a real tracker).
+func (s *udpSrv) wasIssued(src string, id uint64) (bool, []uint64) {
 	s.mu.Lock()
 	defer s.mu.Unlock()
 	l := s.issued[src]
-	if len(l) == 0 {
-		return 0, false
+	for _, x := range l {
+		if x == id {
+			return true, l
+		}
 	}
-	return l[len(l)-1], true
+	return false, append([]uint64{}, l...)
 }
 
 func checkUDPAnnounce(r *refcodec.UDPRequest, c bcase, fail func(field, msg string)) {
@@ -574,10 +578,9 @@ func runUDP(rep *core.Report, fs *findings, cases []bcase, base int) (ok, connec
 				}
 				lcap++
 				for _, r := range anns {
-					want, have := srv.lastIssued(annSrc)
-					if !have || r.ConnectionID != want {
+					if ok, issued := srv.wasIssued(annSrc, r.ConnectionID); !ok {
 						bad = true
-						fs.add(idx, "C15.bytes.udp.connid", desc(fmt.Sprintf("connection_id %#x, but the tracker handed out %#x (issued=%v)", r.ConnectionID, want, have)), c)
+						fs.add(idx, "C15.bytes.udp.connid", desc(fmt.Sprintf("connection_id %#x was never handed out to this client (handed out: %#x)", r.ConnectionID, issued)), c)
 					}
 					if r.URLData() != "/announce?x=1" {
 						lnourl++ // observed, not judged: C15 does not speak about BEP 41 URLData
